@@ -465,21 +465,40 @@ class FSTDomain(Domain):
 
 # ------------------------------------------------------------------ indexed grammars
 class IGDomain(Domain):
-    BATTERY = 6
+    """The seed grammar's Rules object has public mutators (add_production / remove_production): they are part of the
+    alphabet.  The world carries the rule list the grammar should now have ("spec"); the battery on the seed object is
+    compared with the battery on a twin freshly built from that list."""
+    BATTERY = 12
+    LIGHT = True
 
-    def seeds(self):
+    @staticmethod
+    def _build(spec):
         from pyformlang.indexed_grammar import (IndexedGrammar, Rules, EndRule, ProductionRule, ConsumptionRule,
                                                 DuplicationRule)
+        mk = {"prod": ProductionRule, "cons": ConsumptionRule, "end": EndRule, "dup": DuplicationRule}
+        return IndexedGrammar(Rules([mk[r[0]](*r[1:]) for r in spec]))
+
+    def seeds(self):
         from pyformlang.regular_expression import Regex
 
         def g1():
-            r = [ProductionRule("S", "A", "f"), ConsumptionRule("f", "A", "B"), EndRule("B", "a"), DuplicationRule("A", "B", "B")]
-            return {"x": IndexedGrammar(Rules(r)), "re": Regex("a a*"), "d": []}
+            spec = [("prod", "S", "A", "f"), ("cons", "f", "A", "B"), ("end", "B", "a"), ("dup", "A", "B", "B")]
+            return {"x": self._build(spec), "re": Regex("a a*"), "d": [], "spec": spec}
 
         def g2():
-            r = [ProductionRule("S", "A", "f"), ConsumptionRule("g", "A", "B"), EndRule("B", "a")]
-            return {"x": IndexedGrammar(Rules(r)), "re": Regex("a"), "d": []}
+            spec = [("prod", "S", "A", "f"), ("cons", "g", "A", "B"), ("end", "B", "a")]
+            return {"x": self._build(spec), "re": Regex("a"), "d": [], "spec": spec}
         return [("non-empty through push/pop", g1), ("empty: wrong index", g2)]
+
+    @staticmethod
+    def _add(w, l, r, p):
+        w["x"].rules.add_production(l, r, p)
+        w["spec"] = w["spec"] + [("prod", l, r, p)]
+
+    @staticmethod
+    def _remove(w, l, r, p):
+        w["x"].rules.remove_production(l, r, p)
+        w["spec"] = [x for x in w["spec"] if x != ("prod", l, r, p)]
 
     def ops(self):
         IK = ("IndexedGrammar",)
@@ -488,7 +507,11 @@ class IGDomain(Domain):
                 ("intersection(regex)", lambda w: push(w, w["x"].intersection(w["re"]))),
                 ("get_generating_non_terminals", lambda w: w["x"].get_generating_non_terminals()),
                 ("derived.is_empty", lambda w: last(w, IK).is_empty()),
-                ("derived.remove_useless_rules", lambda w: push(w, last(w, IK).remove_useless_rules()))]
+                ("derived.remove_useless_rules", lambda w: push(w, last(w, IK).remove_useless_rules())),
+                ("rules.add_production(S,A,g)", lambda w: self._add(w, "S", "A", "g")),
+                ("rules.remove_production(S,A,g)", lambda w: self._remove(w, "S", "A", "g")),
+                ("rules.remove_production(S,A,f)", lambda w: self._remove(w, "S", "A", "f")),
+                ("derived.rules.remove_production(S,A,f)", lambda w: last(w, IK).rules.remove_production("S", "A", "f"))]
 
     @staticmethod
     def rules_snapshot(g):
@@ -502,14 +525,23 @@ class IGDomain(Domain):
                 out.append(("dup", r.left_term) + tuple(r.right_terms))
             else:
                 out.append(("end", r.left_term, stable_repr(r.right_term)))
-        return tuple(sorted(out, key=repr))
+        return tuple(sorted(set(out), key=repr))      # as a set: Rules() itself drops repeated rules, add_production does not
 
-    def observe(self, w):
-        x = w["x"]
+    def _battery(self, x, re, light=False):
+        if light:
+            return (("rules", self.rules_snapshot(x)), ("is_empty", x.is_empty()),
+                    ("remove_useless_rules().is_empty", x.remove_useless_rules().is_empty()), ("is_empty again", x.is_empty()))
         return (("rules", self.rules_snapshot(x)), ("is_empty", x.is_empty()),
                 ("remove_useless_rules().is_empty", x.remove_useless_rules().is_empty()),
-                ("intersection.is_empty", x.intersection(w["re"]).is_empty()),
-                ("regex unchanged", tuple(w["re"].accepts(list(i)) for i in WA[:4])), ("is_empty again", x.is_empty()))
+                ("intersection.is_empty", x.intersection(re).is_empty()),
+                ("regex unchanged", tuple(re.accepts(list(i)) for i in WA[:4])), ("is_empty again", x.is_empty()))
+
+    def observe(self, w, light=False):
+        from pyformlang.regular_expression import Regex
+        got = self._battery(w["x"], w["re"], light)
+        want = self._battery(self._build(w["spec"]), Regex("a a*" if ("dup", "A", "B", "B") in w["spec"] else "a"), light)
+        return tuple((k, "as on a fresh twin" if v == v2 else {"seed object": v, "fresh twin": v2})
+                     for (k, v), (_, v2) in zip(got, want))
 
 
 def dfa_alias_history(hist):
